@@ -50,11 +50,76 @@ def bp_presence(m, md):
     return out
 
 
+def deep_read(m, depth):
+    """read (never assign) every attribute, down through unset sub-messages, list items and map values"""
+    import dataclasses
+    for fld in dataclasses.fields(m):
+        try:
+            v = getattr(m, fld.name)
+        except AttributeError:
+            continue
+        if depth <= 0:
+            continue
+        if isinstance(v, betterproto.Message):
+            deep_read(v, depth - 1)
+        elif isinstance(v, list):
+            for x in v:
+                if isinstance(x, betterproto.Message):
+                    deep_read(x, depth - 1)
+        elif isinstance(v, dict):
+            for x in v.values():
+                if isinstance(x, betterproto.Message):
+                    deep_read(x, depth - 1)
+
+
+def reads_are_not_writes(chk, rng, b, ci, inp0):
+    """presence is changed by assignment and by decoding, never by looking: after reading every path
+    (to depth 3, through unset sub-messages) the bytes, and so HasField / WhichOneof of the reference on
+    them, and serialized_on_wire of every plain sub-message are what they were"""
+    cls, md = b.classes[ci], b.schema[ci]
+    for way in ("fresh", "ctor", "parse", "from_dict"):
+        v = bpgen.gen_msg(rng, b.schema, ci, 2)
+        try:
+            if way == "fresh":
+                m = cls()
+            elif way == "ctor":
+                m = bpgen.to_py(v, b.classes)
+            elif way == "parse":
+                m = cls().parse(bytes(bpgen.to_py(v, b.classes)))
+            else:
+                m = cls().from_dict(bpgen.to_py(v, b.classes).to_dict())
+            data0 = bytes(m)
+        except Exception as e:
+            chk.count("reads_skipped_" + type(e).__name__)
+            continue
+        inp = dict(inp0, way=way, value=bpgen.term(v) if way != "fresh" else "-", stage="reads-are-not-writes")
+        chk.case(b.schema_line() + repr(("reads", ci, way, bpgen.term(v))), way != "fresh", {"way": way, "stage": "reads"})
+        chk.count("reads_" + way)
+        ow0 = {f.name: betterproto.serialized_on_wire(m._Message__raw_get(f.name)) for f in md.fields
+               if f.ty == "message" and not f.wraps and not f.repeated and f.kind.startswith("u")
+               and isinstance(m._Message__raw_get(f.name), betterproto.Message)}
+        for depth in (1, 2, 3):
+            deep_read(m, depth)
+            try:
+                data1 = bytes(m)
+            except Exception as e:
+                chk.fail("read-breaks-encoding", dict(inp, depth=depth), repr(e))
+                break
+            if data1 != data0:
+                chk.fail("read-changes-bytes", dict(inp, depth=depth), "%s -> %s" % (data0.hex(), data1.hex()))
+                break
+            ow1 = {k: betterproto.serialized_on_wire(getattr(m, k)) for k in ow0}
+            if ow1 != ow0:
+                chk.fail("read-changes-serialized_on_wire", dict(inp, depth=depth), "%r -> %r" % (ow0, ow1))
+                break
+
+
 def run(chk, drv):
     quick = chk.tier == "quick"
     rng = chk.rng
     chk.extra["rule"] = ("for every field of random schemas: {never set, set to the default, set to a non-default} × {constructor, assignment, parse, from_dict}; "
-                         "fresh instances; decoded messages compared with the reference's HasField / WhichOneof on the same bytes. "
+                         "fresh instances; decoded messages compared with the reference's HasField / WhichOneof on the same bytes; "
+                         "reads-are-not-writes: fresh / constructed / parsed / from_dict messages read along every path to depth 3 keep their bytes and sub-message presence. "
                          "non-trivial = a field was set; distinct by (schema, field, way, value)")
     nb = 25 if quick else 300
     if globals().get("_ONE"):
@@ -83,6 +148,7 @@ def run(chk, drv):
                 if not ok:
                     chk.fail("fresh-field-not-default", dict(inp0, field=f.name), repr(v))
             chk.case(b.schema_line() + "fresh%d" % ci, False)
+            reads_are_not_writes(chk, rng, b, ci, inp0)
             # ---- the matrix
             lines, wants = [], []
             for i, f in enumerate(md.fields):
